@@ -131,7 +131,19 @@ def sliceToAscending (key : PySlice) (size : Int) : Option PySlice :=
         some ⟨some start, stop, some step⟩
 
 /-- `util.slice_to_inclusive_slice(key, offset)` -/
+def inclusiveStop (stop offset : Int) (step : Option Int) : Option Int :=
+  match step with
+  | some st =>
+    if st < 0 then (if stop - 1 + offset < 0 then none else some (stop - 1 + offset))
+    else some (stop + 1 + offset)
+  | none => some (stop + 1 + offset)
+
+/-- `util.slice_to_inclusive_slice(key, offset)` (as repaired: the stop moves one further in the direction of the step) -/
 def sliceToInclusive (key : PySlice) (offset : Int) : PySlice :=
+  ⟨key.start.map (· + offset), key.stop.bind (inclusiveStop · offset key.step), key.step⟩
+
+/-- the pinned code: the stop always moved up -/
+def sliceToInclusiveOld (key : PySlice) (offset : Int) : PySlice :=
   ⟨key.start.map (· + offset), key.stop.map (· + 1 + offset), key.step⟩
 
 end SF
